@@ -26,6 +26,7 @@ func checkC09(p *Program, r *Report) {
 	r.Rule("C09.map", "E11", "Search maps the three ids to the three results", 1)
 	r.Rule("C09.extremes", "E6", "one definition of a node's first and last child", 2)
 	r.Rule("C09.route", "call graph", "left candidate -> right-most walk, right candidate -> left-most walk", 1)
+	r.Rule("C09.candidates", "CFG dominance", "a child id becomes a neighbour candidate only inside the node's child range", 2)
 	setRule := func(name string) {
 		for _, ri := range r.Rules {
 			if ri.Name == name {
@@ -271,7 +272,199 @@ func checkC09(p *Program, r *Report) {
 			}
 		}
 		r.Check(len(bad) == 0 && n > 0, "neighbour ids of "+shortFn(descent), p.Pos(descent.Pos()), "left = "+shortFn(last.f)+"(candidate), right = "+shortFn(first.f)+"(candidate)", strings.Join(bad, "; "))
+		// ---- candidates: a child id (rank-derived) that flows into the left (right) result is assigned
+		// only under a comparison with the node's first (last) child id: the id before the first child
+		// belongs to another node, the id after the last child to the next node.
+		setRule("C09.candidates")
+		checkNeighbourCandidates(p, r, descent, first.f, last.f)
 	}
+}
+
+// checkNeighbourCandidates: see C09.candidates.
+func checkNeighbourCandidates(p *Program, r *Report, descent, firstWalk, lastWalk *ssa.Function) {
+	// the current-node phi: a phi that is passed as node id to a call taking the session
+	curNode := map[*ssa.Phi]bool{}
+	for _, c := range callsIn(descent) {
+		hasSess := false
+		for _, a := range c.Common().Args {
+			if isSessionPtr(a) {
+				hasSess = true
+			}
+		}
+		if !hasSess {
+			continue
+		}
+		for _, a := range c.Common().Args {
+			if ph, ok := a.(*ssa.Phi); ok && isIntType(ph.Type()) {
+				curNode[ph] = true
+			}
+		}
+	}
+	// ... and every phi the exact-match result is made of: "lID = eqID" hands on the current node, not a child id
+	for _, ret := range returnsOf(descent) {
+		if len(ret.Results) == 3 {
+			for v := range phiClosure(ret.Results[1]) {
+				if ph, ok := v.(*ssa.Phi); ok {
+					curNode[ph] = true
+				}
+			}
+		}
+	}
+	// child-derived: the value is (up to additions) result #0 of a call, i.e. a rank
+	var childDerived func(v ssa.Value, d int) bool
+	childDerived = func(v ssa.Value, d int) bool {
+		if d > 4 {
+			return false
+		}
+		switch x := v.(type) {
+		case *ssa.Extract:
+			_, isCall := x.Tuple.(*ssa.Call)
+			return isCall && x.Index == 0
+		case *ssa.BinOp:
+			if x.Op == token.ADD {
+				return childDerived(x.X, d+1) || childDerived(x.Y, d+1)
+			}
+		case *ssa.Convert:
+			return childDerived(x.X, d+1)
+		}
+		return false
+	}
+	e := newEval(p)
+	// true-edge dominance of a comparison "v OP bound" (bound is a child-range term)
+	boundedBy := func(b *ssa.BasicBlock, v ssa.Value, lower bool) bool {
+		for d := b; d != nil; d = d.Idom() {
+			id := d.Idom()
+			if id == nil {
+				break
+			}
+			iff, ok := lastInstr(id).(*ssa.If)
+			if !ok {
+				continue
+			}
+			bo, ok := iff.Cond.(*ssa.BinOp)
+			if !ok {
+				continue
+			}
+			onTrue := id.Succs[0] == d && len(d.Preds) == 1
+			onFalse := id.Succs[1] == d && len(d.Preds) == 1
+			if !onTrue && !onFalse {
+				continue
+			}
+			op, x, y := bo.Op, bo.X, bo.Y
+			if onFalse {
+				switch op {
+				case token.LSS:
+					op = token.GEQ
+				case token.GTR:
+					op = token.LEQ
+				default:
+					continue
+				}
+			}
+			// normalise to v OP bound
+			if y == v {
+				x, y = y, x
+				switch op {
+				case token.GEQ:
+					op = token.LEQ
+				case token.LEQ:
+					op = token.GEQ
+				}
+			}
+			if x != v {
+				continue
+			}
+			if !strings.Contains(e.eval(y).String(), "Slim.Inners") {
+				continue
+			}
+			if (lower && op == token.GEQ) || (!lower && op == token.LEQ) {
+				return true
+			}
+		}
+		return false
+	}
+	type cand struct {
+		v    ssa.Value
+		from *ssa.BasicBlock
+	}
+	collect := func(res ssa.Value) []cand {
+		var out []cand
+		seen := map[ssa.Value]bool{}
+		var walk func(v ssa.Value, from *ssa.BasicBlock)
+		walk = func(v ssa.Value, from *ssa.BasicBlock) {
+			switch x := v.(type) {
+			case *ssa.Phi:
+				if seen[x] || curNode[x] {
+					return
+				}
+				seen[x] = true
+				for i, ed := range x.Edges {
+					walk(ed, x.Block().Preds[i])
+				}
+			case *ssa.Call:
+				// the finishing walk: its argument is the candidate
+				if g := calleeOf(x); g == firstWalk || g == lastWalk {
+					for _, a := range x.Call.Args {
+						if isIntType(a.Type()) {
+							walk(a, x.Block())
+						}
+					}
+				}
+			default:
+				if childDerived(v, 0) && from != nil {
+					out = append(out, cand{v, from})
+				}
+			}
+		}
+		walk(res, nil)
+		return out
+	}
+	nl, nr := 0, 0
+	var bad, badR []string
+	posOf := func(c cand) string {
+		for _, in := range c.from.Instrs {
+			if in.Pos().IsValid() {
+				return p.Pos(in.Pos())
+			}
+		}
+		if id := c.from.Idom(); id != nil {
+			if iff, ok := lastInstr(id).(*ssa.If); ok {
+				if bo, ok := iff.Cond.(*ssa.BinOp); ok && bo.Pos().IsValid() {
+					return p.Pos(bo.Pos())
+				}
+			}
+			for i := len(id.Instrs) - 1; i >= 0; i-- {
+				if id.Instrs[i].Pos().IsValid() {
+					return p.Pos(id.Instrs[i].Pos())
+				}
+			}
+		}
+		return p.Pos(descent.Pos())
+	}
+	for _, ret := range returnsOf(descent) {
+		if len(ret.Results) != 3 {
+			continue
+		}
+		for _, c := range collect(ret.Results[0]) {
+			nl++
+			if !boundedBy(c.from, c.v, true) {
+				bad = append(bad, "the child id assigned as left candidate at "+posOf(c)+" is not compared (>=) with the node's first child id: the id before the first child belongs to another node")
+			}
+		}
+		for _, c := range collect(ret.Results[2]) {
+			nr++
+			if !boundedBy(c.from, c.v, false) {
+				badR = append(badR, "the child id assigned as right candidate at "+posOf(c)+" is not compared (<=) with the node's last child id: the id after the last child belongs to the next node")
+			}
+		}
+	}
+	bad, badR = dedupStrings(bad), dedupStrings(badR)
+	if nl == 0 || nr == 0 {
+		r.Unk("neighbour candidates of "+shortFn(descent), p.Pos(descent.Pos()), fmt.Sprintf("found %d left and %d right child-id candidates; need at least one each", nl, nr))
+		return
+	}
+	r.Check(len(bad) == 0, "left neighbour candidates of "+shortFn(descent)+" lie in the node's child range", p.Pos(descent.Pos()), fmt.Sprintf("%d assignment(s) under candidate >= first child", nl), strings.Join(bad, "; "))
+	r.Check(len(badR) == 0, "right neighbour candidates of "+shortFn(descent)+" lie in the node's child range", p.Pos(descent.Pos()), fmt.Sprintf("%d assignment(s) under candidate <= last child", nr), strings.Join(badR, "; "))
 }
 
 // mayComeFromCallDir: v is (through phis) the result of a call of f whose direction argument (when the
